@@ -644,6 +644,20 @@ Theorem C07_wide_append_graph : forall c0 bin toks os m a,
 Proof. exact wide_append_graph. Qed.
 Print Assumptions C07_wide_append_graph.
 
+(** Set / SetTrue / SetFalse in ANY override graph: the last own occurrence after the last overrider decides
+    ([last_own]); when there is none only env / default entries remain *)
+Theorem C07_wide_set_graph : forall c0 bin toks os m a,
+  let c := build_self (with_bin c0 bin) in
+  wide_class c0 bin toks os -> parse_top c0 (bin :: toks) = OOk m -> In a (c_args c) ->
+  set_family a = true ->
+  match last_own (a_id a) (live c (a_id a) os) with
+  | Some o => exists e, fm_get (a_id a) (ms_args m) = Some e /\
+                m_raw e = step_self c SCmdLine a (o_vals c o) None /\ m_source e = Some SCmdLine
+  | None => forall e, fm_get (a_id a) (ms_args m) = Some e -> m_source e = Some SEnv \/ m_source e = Some SDefault
+  end.
+Proof. exact wide_set_graph. Qed.
+Print Assumptions C07_wide_set_graph.
+
 (** ======== round 3: the default of a flag comes from [Arg::_build], required or not (ParseProofs/ActionsRequired.v) ======== *)
 (** every argument of the (unbuilt) definition is in the built command as [_build] left it *)
 Theorem C07_build_self_from : forall c a0, s_built (c_set c) = false -> In a0 (c_args c) ->
